@@ -79,7 +79,12 @@ func (tcSuite) Gen(r *rand.Rand, i int) Case {
 			c.Ops = append(c.Ops, fmt.Sprintf("allow %d", allow))
 			c.Tags = append(c.Tags, "live-allow")
 		default:
-			c.Ops = append(c.Ops, "dump")
+			if r.Intn(3) == 0 {
+				c.Ops = append(c.Ops, "restore")
+				c.Tags = append(c.Tags, "json-restore-into-fresh-object")
+			} else {
+				c.Ops = append(c.Ops, "dump")
+			}
 		}
 	}
 	return c
@@ -125,6 +130,18 @@ func (tcSuite) Run(h map[string]string, ops []string) []string {
 				if k >= 0 && k < len(callbacks) {
 					callbacks[k]()
 				}
+				return "ok"
+			case "restore":
+				// the gate moves house: its JSON is loaded into a FRESH TimedCheck (same timer hook), used from now on
+				b, err := json.Marshal(tc)
+				if err != nil {
+					return "json-error"
+				}
+				fresh := &faststats.TimedCheck{TimeAfterFunc: tc.TimeAfterFunc}
+				if err := json.Unmarshal(b, fresh); err != nil {
+					return "json-error"
+				}
+				tc = fresh
 				return "ok"
 			case "dump":
 				b, err := json.Marshal(tc)
